@@ -183,6 +183,18 @@ func main() {
 			d.noEnqueue = false
 			added = true
 		}
+		// function literals of the initialisers (and what they call)
+		for {
+			for len(d.work) > 0 {
+				f := d.work[len(d.work)-1]
+				d.work = d.work[:len(d.work)-1]
+				d.dumpFunc(f)
+			}
+			d.resolveInvokes()
+			if len(d.work) == 0 {
+				break
+			}
+		}
 		if !added {
 			break
 		}
@@ -260,7 +272,8 @@ func (d *dumper) enqueue(f *ssa.Function) {
 	if f == nil || d.seen[f] {
 		return
 	}
-	if d.noEnqueue {
+	if d.noEnqueue && !(f.Parent() != nil && f.Parent().Name() == "init") {
+		// inside package initialisers only their own function literals are traversed
 		return
 	}
 	d.seen[f] = true
